@@ -1000,10 +1000,17 @@ std::string EvaluateCommandWithRspfile(const Edge* edge,
     return command;
 
   size_t index = command.find(rspfile);
-  if (index == 0 || index == string::npos ||
-      (command[index - 1] != '@' &&
-       command.find("--option-file=") != index - 14 &&
-       command.find("-f ") != index - 3))
+  if (index == 0 || index == string::npos)
+    return command;
+  // The text right in front of the file name tells how it is passed.  (Do not
+  // compare find() results with `index - N`: for index < N that wraps around
+  // to npos and matches "not found".)
+  const bool at_syntax = command[index - 1] == '@';
+  const bool dash_f_syntax =
+      index >= 3 && command.compare(index - 3, 3, "-f ") == 0;
+  const bool option_file_syntax =
+      index >= 14 && command.compare(index - 14, 14, "--option-file=") == 0;
+  if (!at_syntax && !dash_f_syntax && !option_file_syntax)
     return command;
 
   string rspfile_content = edge->GetBinding("rspfile_content");
@@ -1013,9 +1020,9 @@ std::string EvaluateCommandWithRspfile(const Edge* edge,
     rspfile_content.replace(newline_index, 1, 1, ' ');
     ++newline_index;
   }
-  if (command[index - 1] == '@') {
+  if (at_syntax) {
     command.replace(index - 1, rspfile.length() + 1, rspfile_content);
-  } else if (command.find("-f ") == index - 3) {
+  } else if (dash_f_syntax) {
     command.replace(index - 3, rspfile.length() + 3, rspfile_content);
   } else {  // --option-file syntax
     command.replace(index - 14, rspfile.length() + 14, rspfile_content);
